@@ -3,8 +3,8 @@ from ..core import Script, hx
 
 ID = "C16"
 SUITES = ["codec"]
-LEAN_MODULES = ["VpnCloud.Proofs.C16"]
-THEOREMS = ["VpnCloud.Proofs.C16." + n for n in ("range_roundtrip", "rotmsg_roundtrip", "partsOf_flatten", "nodeinfo_roundtrip", "unknown_parts_skipped", "decodeParts_fuel", "readU16_lt")]
+LEAN_MODULES = ["VpnCloud.Proofs.C16", "VpnCloud.Proofs.C16Init"]
+THEOREMS = ["VpnCloud.Proofs.C16." + n for n in ("range_roundtrip", "rotmsg_roundtrip", "partsOf_flatten", "nodeinfo_roundtrip", "unknown_parts_skipped", "decodeParts_fuel", "readU16_lt")] + ["VpnCloud.Proofs.C16Init.initmsg_roundtrip"]
 BATCH = 100
 SEARCH_BUDGET_S = 300
 RULE = ("suite codec: generated node information messages (0..20 peers, 0..9 addresses per family, claims of every address length 0..16 and "
